@@ -196,6 +196,10 @@ def resolve (cfg : ReflectCfg) (s : Stack) (expr : Str) : Res (Option Val) :=
 
 end Stack
 
+/-- tag marking a field PROMOTED from an embedded struct (set by the harness codec): reachable by its Go name like any field
+    (reflect's FieldByName), but not one of the struct's own fields — the JSON-tag scan and StructToMap do not see it -/
+def promotedTag : Str := ['\x01']
+
 mutual
 /-- `StructToMap` (fuelled on nesting depth; nested structs and pointers to structs become maps) -/
 def structToMap : Nat → Val → Val
@@ -207,7 +211,7 @@ def structToMap : Nat → Val → Val
 def structFields : Nat → List (Str × Str × Bool × Val) → List (Str × Val)
   | _, [] => []
   | f, (n, t, e, v) :: r =>
-    if !e then structFields f r else
+    if !e || t == promotedTag then structFields f r else
     let key := if t != [] then t else n
     let v' := match v with
       | .strct _ => structToMap f v
